@@ -258,7 +258,7 @@ where
             if contested {
                 fail!("honest-proof-fails", "fri-degree-truncation-config", "prover panic {} for {}", p.msg, ctx());
             }
-            if p.msg.contains("FailedToDrawFieldElement") {
+            if p.msg.contains("FailedToDrawFieldElement") && exhaustion_plausible(inst) {
                 // the coin gives up after 1000 rejected candidates; for f62 extensions a candidate is
                 // accepted with probability 4^-degree, so this happens about once in 10^7 draws
                 fail!("honest-proof-fails", "coin-draw-exhaustion", "prover panic {} for {}", p.msg, ctx());
@@ -279,7 +279,7 @@ where
             if contested {
                 fail!("honest-proof-fails", "fri-degree-truncation-config", "verifier error {e} for {}", ctx());
             }
-            if format!("{e:?}").contains("RandomCoinError") {
+            if format!("{e:?}").contains("RandomCoinError") && exhaustion_plausible(inst) {
                 fail!("honest-proof-fails", "coin-draw-exhaustion", "verifier error {e} for {}", ctx());
             }
             let div = first_divergence(&history(PROVER), &history(VERIFIER)).map(|d| d.1).unwrap_or_else(|| "transcripts equal up to the failure".into());
@@ -300,6 +300,14 @@ where
         stats::probe("probe.prover_ran_under_simulated_scheduler");
     }
     Ok(())
+}
+
+/// The coin gives up after 1000 rejected candidates. Only over the cubic extension of f62 is a
+/// candidate rejected often enough (63 times in 64) for that to happen by chance (about once in
+/// 10^7 draws); everywhere else the chance is below 2^-90 per draw, so a failed draw there is not
+/// the recorded finding.
+fn exhaustion_plausible(inst: &Instance) -> bool {
+    crate::protocol::combo_field(inst.combo) == 0 && inst.opts.extension == 3
 }
 
 fn probes<B: StarkField>(inst: &Instance, spec: &Spec<B>) {
